@@ -382,6 +382,8 @@ Definition find_user (st : state) (n : N) : option N :=
     nine KV buckets (sorted by key) and the name lookups for the case's probes. *)
 Record obs := {
   o_same : bool;   (* driver-side compression: the dump and lookups equal the previous step's *)
+  o_skip : bool;   (* the driver did not look at the store after this step (only the error
+                      class is known): bulk phases of the large-organization histories *)
   o_err : N;
   o_orgs : list (N * oname);
   o_oidx : list (oname * N);
@@ -394,7 +396,9 @@ Record obs := {
   o_uix : list ((N * N) * (N * N));
   o_lorg : list (oname * option N);      (* FindOrganization by name: probe, id found *)
   o_lbkt : list ((N * N) * option N);    (* FindBucketByName (org, name) *)
-  o_lusr : list (N * option N)           (* FindUser by name *)
+  o_lusr : list (N * option N);          (* FindUser by name *)
+  o_lst : list (N * option (list N))     (* FindBuckets(OrganizationID) with an explicit large
+                                            limit: ids, ascending; None = the call failed *)
 }.
 
 Record case := { c_ops : list op; c_obs : list obs }.
@@ -412,9 +416,15 @@ Definition sN (a : N) : option N := Some a.
 Definition nN : option N := None.
 Definition mk_lk (a b : N) (r : option N) : (N * N) * option N := ((a, b), r).
 Definition mk_lu (a : N) (r : option N) : N * option N := (a, r).
+Definition sL (l : list N) : option (list N) := Some l.
+Definition nL : option (list N) := None.
+Definition mk_ls (o : N) (r : option (list N)) : N * option (list N) := (o, r).
+Definition oskip (e : N) : obs :=
+  {| o_same := false; o_skip := true; o_err := e; o_orgs := []; o_oidx := []; o_bkts := []; o_bidx := []; o_users := [];
+     o_uidx := []; o_pwds := []; o_urms := []; o_uix := []; o_lorg := []; o_lbkt := []; o_lusr := []; o_lst := [] |}.
 Definition osame (e : N) : obs :=
-  {| o_same := true; o_err := e; o_orgs := []; o_oidx := []; o_bkts := []; o_bidx := []; o_users := [];
-     o_uidx := []; o_pwds := []; o_urms := []; o_uix := []; o_lorg := []; o_lbkt := []; o_lusr := [] |}.
+  {| o_same := true; o_skip := false; o_err := e; o_orgs := []; o_oidx := []; o_bkts := []; o_bidx := []; o_users := [];
+     o_uidx := []; o_pwds := []; o_urms := []; o_uix := []; o_lorg := []; o_lbkt := []; o_lusr := []; o_lst := [] |}.
 Definition oN (a b : N) : oname := (a, b).
 
 (** insertion sort by key *)
@@ -435,10 +445,18 @@ Definition bucket_eqb (a b : bucket) : bool :=
   N.eqb (b_org a) (b_org b) && N.eqb (b_name a) (b_name b) && Bool.eqb (b_sys a) (b_sys b).
 Definition optN_eqb := option_eqb N.eqb.
 
+(** [FindBuckets(OrganizationID)] = [listBucketsByOrg]: the bucket index entries of the
+    org, each record loaded (a missing record fails the call); ids in ascending order. *)
+Definition list_buckets (st : state) (org : N) : option (list N) :=
+  let ids := map snd (filter (fun e => N.eqb (fst (fst e)) org) (s_bidx st)) in
+  if forallb (fun i => hasN i (s_bkts st)) ids
+  then Some (map fst (ssort N.leb (map (fun i => (i, tt)) ids)))
+  else None.
+
 (** The model's observation for the probes the driver chose at this step. *)
 Definition model_obs (seen : obs) (se : state * N) : obs :=
   let st := fst se in
-  {| o_same := false; o_err := snd se;
+  {| o_same := false; o_skip := false; o_err := snd se;
      o_orgs := ssort N.leb (s_orgs st);
      o_oidx := ssort nn_leb (s_oidx st);
      o_bkts := ssort N.leb (s_bkts st);
@@ -450,7 +468,8 @@ Definition model_obs (seen : obs) (se : state * N) : obs :=
      o_uix := ssort nn_leb (s_uix st);
      o_lorg := map (fun p => (fst p, find_org st (fst p))) (o_lorg seen);
      o_lbkt := map (fun p => (fst p, find_bucket st (fst (fst p)) (snd (fst p)))) (o_lbkt seen);
-     o_lusr := map (fun p => (fst p, find_user st (fst p))) (o_lusr seen) |}.
+     o_lusr := map (fun p => (fst p, find_user st (fst p))) (o_lusr seen);
+     o_lst := map (fun p => (fst p, list_buckets st (fst p))) (o_lst seen) |}.
 
 Definition obs_eqb (a b : obs) : bool :=
   N.eqb (o_err a) (o_err b)
@@ -465,7 +484,8 @@ Definition obs_eqb (a b : obs) : bool :=
   && list_eqb (pair_eqb nn_eqb nn_eqb) (o_uix a) (o_uix b)
   && list_eqb (pair_eqb nn_eqb optN_eqb) (o_lorg a) (o_lorg b)
   && list_eqb (pair_eqb nn_eqb optN_eqb) (o_lbkt a) (o_lbkt b)
-  && list_eqb (pair_eqb N.eqb optN_eqb) (o_lusr a) (o_lusr b).
+  && list_eqb (pair_eqb N.eqb optN_eqb) (o_lusr a) (o_lusr b)
+  && list_eqb (pair_eqb N.eqb (option_eqb (list_eqb N.eqb))) (o_lst a) (o_lst b).
 
 Fixpoint trace (fx : bool) (st : state) (ops : list op) : list (state * N) :=
   match ops with
@@ -512,7 +532,11 @@ Definition ok_state (o : obs) : bool :=
   (* every name lookup agrees with the records *)
   && forallb (fun p => optN_eqb (snd p) (rec_org o (fst p))) (o_lorg o)
   && forallb (fun p => optN_eqb (snd p) (rec_bucket o (fst (fst p)) (snd (fst p)))) (o_lbkt o)
-  && forallb (fun p => optN_eqb (snd p) (rec_user o (fst p))) (o_lusr o).
+  && forallb (fun p => optN_eqb (snd p) (rec_user o (fst p))) (o_lusr o)
+  (* the bucket listing of an organization is exactly its bucket records *)
+  && forallb (fun p => option_eqb (list_eqb N.eqb) (snd p)
+                         (Some (map fst (filter (fun e => N.eqb (b_org (snd e)) (fst p)) (o_bkts o)))))
+             (o_lst o).
 
 Definition is_delete_org_of (o : op) (org : N) : bool :=
   match o with DeleteOrg id => N.eqb id org | _ => false end.
@@ -531,6 +555,10 @@ Definition ok_step (prev : obs) (o : op) (cur : obs) : bool :=
          || (negb (hasN id (o_orgs cur))
              && forallb (fun e => negb (N.eqb (b_org (snd e)) id)) (o_bkts cur)
              && forallb (fun e => negb (N.eqb (fst (fst e)) id)) (o_bidx cur)
+             (* the buckets of the other organizations are untouched *)
+             && forallb (fun e => N.eqb (b_org (snd e)) id
+                                  || option_eqb bucket_eqb (getN (fst e) (o_bkts cur)) (Some (snd e)))
+                        (o_bkts prev)
              && let dead := id :: map fst (filter (fun e => N.eqb (b_org (snd e)) id) (o_bkts prev)) in
                 forallb (fun e => negb (existsb (N.eqb (fst (fst e))) dead)) (o_urms cur)
                 && forallb (fun e => negb (existsb (N.eqb (snd (fst e))) dead)) (o_uix cur))
@@ -559,39 +587,50 @@ Definition ok_step (prev : obs) (o : op) (cur : obs) : bool :=
      end.
 
 Definition empty_obs : obs :=
-  {| o_same := false; o_err := 0; o_orgs := []; o_oidx := []; o_bkts := []; o_bidx := []; o_users := []; o_uidx := [];
-     o_pwds := []; o_urms := []; o_uix := []; o_lorg := []; o_lbkt := []; o_lusr := [] |}.
+  {| o_same := false; o_skip := false; o_err := 0; o_orgs := []; o_oidx := []; o_bkts := []; o_bidx := []; o_users := []; o_uidx := [];
+     o_pwds := []; o_urms := []; o_uix := []; o_lorg := []; o_lbkt := []; o_lusr := []; o_lst := [] |}.
 
-Fixpoint ok_trace (prev : obs) (ops : list op) (os : list obs) : bool :=
+(** Only bucket operations through the API may go unobserved (they cannot touch system
+    buckets, organizations, users or mappings of other resources). *)
+Definition may_skip (o : op) : bool :=
+  match o with CreateBucket _ _ _ | UpdateBucket _ _ | DeleteBucket _ => true | _ => false end.
+
+(** [fresh]: [prev] is the observation of the immediately preceding step.  After unobserved
+    steps the next observed step is judged by [ok_state] only; the step after it again by
+    [ok_step] too. *)
+Fixpoint ok_trace (prev : obs) (fresh : bool) (ops : list op) (os : list obs) : bool :=
   match ops, os with
   | [], [] => true
-  | o :: ops', cur :: os' => ok_state cur && ok_step prev o cur && ok_trace cur ops' os'
+  | o :: ops', cur :: os' =>
+      if o_skip cur then may_skip o && ok_trace prev false ops' os'
+      else ok_state cur && (negb fresh || ok_step prev o cur) && ok_trace cur true ops' os'
   | _, _ => false
   end.
 
 Fixpoint same_trace (os : list obs) (ms : list (state * N)) : bool :=
   match os, ms with
   | [], [] => true
-  | o :: os', m :: ms' => obs_eqb o (model_obs o m) && same_trace os' ms'
+  | o :: os', m :: ms' =>
+      (if o_skip o then N.eqb (o_err o) (snd m) else obs_eqb o (model_obs o m)) && same_trace os' ms'
   | _, _ => false
   end.
 
 (** Undo the driver's compression of unchanged steps. *)
 Definition expand1 (prev cur : obs) : obs :=
   if o_same cur then
-    {| o_same := false; o_err := o_err cur; o_orgs := o_orgs prev; o_oidx := o_oidx prev;
+    {| o_same := false; o_skip := false; o_err := o_err cur; o_orgs := o_orgs prev; o_oidx := o_oidx prev;
        o_bkts := o_bkts prev; o_bidx := o_bidx prev; o_users := o_users prev; o_uidx := o_uidx prev;
        o_pwds := o_pwds prev; o_urms := o_urms prev; o_uix := o_uix prev;
-       o_lorg := o_lorg prev; o_lbkt := o_lbkt prev; o_lusr := o_lusr prev |}
+       o_lorg := o_lorg prev; o_lbkt := o_lbkt prev; o_lusr := o_lusr prev; o_lst := o_lst prev |}
   else cur.
 Fixpoint expand (prev : obs) (os : list obs) : list obs :=
   match os with
   | [] => []
-  | o :: r => let o' := expand1 prev o in o' :: expand o' r
+  | o :: r => let o' := expand1 prev o in o' :: expand (if o_skip o' then prev else o') r
   end.
 
 Definition check (c : case) : verdict :=
   let os := expand empty_obs (c_obs c) in
   let same := same_trace os (trace true init (c_ops c)) in
-  let ok := ok_trace empty_obs (c_ops c) os in
+  let ok := ok_trace empty_obs true (c_ops c) os in
   judge same ok.
